@@ -16,10 +16,11 @@ pub open spec fn lic_of_text(s: Seq<char>, v: License) -> bool {
     else if i == 0 { v is Text && v->Text_0@ == s.skip(1) }
     else { v is Named && v->Named_0@ == s.take(i) && v->Named_1@ == s.skip(i + 1) }
 }
-/// LicenseParagraph::name / text: the part before / after the first LF, only when there is one
+/// LicenseParagraph::name: the first line of the field (the whole value when it has one line: a licence paragraph
+/// without text still has its name); text: the part after the first LF, only when there is one
 pub open spec fn lic_field_name(s: Seq<char>) -> Option<Seq<char>> {
     let i = find_sub(s, seq!['\n']);
-    if i < 0 { None } else { Some(s.take(i)) }
+    if i < 0 { Some(s) } else { Some(s.take(i)) }
 }
 pub open spec fn lic_field_text(s: Seq<char>) -> Option<Seq<char>> {
     let i = find_sub(s, seq!['\n']);
